@@ -177,20 +177,32 @@ func runOpaque(c *core.Ctx) {
 			continue
 		}
 		first := recvSubs(e, r.Results[0], nil)
-		var typ string
+		// the opaque type(s) this return serves. When the three arms share a helper that receives &t.details, the
+		// (context-insensitive) origin of the helper's parameter is the union of the three call sites: every member
+		// of the union must then be the stored field of an opaque type.
+		var typs []string
 		for k := range first {
 			if i := strings.Index(k, "."); i > 0 && strings.HasPrefix(k, "opaque") {
-				typ = k[:i]
+				typs = append(typs, k[:i])
 			}
 		}
-		if typ == "" {
+		if len(typs) == 0 {
 			continue
 		}
-		seenT[typ] = true
+		sort.Strings(typs)
+		typs = dedupStr(typs)
+		for _, t := range typs {
+			seenT[t] = true
+		}
+		typ := strings.Join(typs, "/")
 		for i := 0; i < 3; i++ {
 			got := recvSubs(e, r.Results[i], nil)
-			w1, w2 := typ+"."+want[i], typ+".opaqueLeaf."+want[i]
-			ok := len(got) == 1 && (got[w1] || got[w2])
+			ok := len(got) >= 1
+			for k := range got {
+				if !strings.HasPrefix(k, "opaque") || !strings.HasSuffix(k, "."+want[i]) {
+					ok = false
+				}
+			}
 			c.Check(ok, fmt.Sprintf("errbase.getTypeDetails: case *%s result#%d", typ, i), r.Pos(), "returns the stored "+want[i],
 				fmt.Sprintf("for a received %s the %s is taken from %s instead of the stored %s: identity of forwarded errors changes", typ, []string{"original type name", "family name (type key)", "extension"}[i], setStr(got), want[i]))
 		}
